@@ -325,14 +325,17 @@ def render_doctest(dt, indent, out, lineno0, env=None, defaults=None):
     if dt.get('defaults') is not None:
         defaults = dt['defaults']
     runs = D.executed_flags(dt['steps'], env or {}, defaults)
+    base_pad = pad
     for st, st_runs in zip(dt['steps'], runs):
+        # a statement (with its want) may sit at a deeper column than the one before
+        pad = base_pad + ' ' * st.get('indent', 0)
         sep = st.get('sep', 'none')
         if not first:
             if sep == 'blank':
                 out.append('')
             elif sep == 'prose':
                 out.append('')
-                out.append(pad + 'Some prose between the examples.')
+                out.append(base_pad + 'Some prose between the examples.')
                 out.append('')
         first = False
         lines = form_lines(st)
